@@ -26,6 +26,7 @@ import (
 
 	"github.com/deadsy/sdfx/render/dc"
 	"github.com/deadsy/sdfx/sdf"
+	v2 "github.com/deadsy/sdfx/vec/v2"
 	v3 "github.com/deadsy/sdfx/vec/v3"
 	"github.com/deadsy/sdfx/vec/v3i"
 	"verifharness/dctab"
@@ -326,6 +327,21 @@ func buildShape(sp shapeSpec) (sdf.SDF3, bool, error) {
 			s = sdf.Union3D(a, b)
 			exact = false
 		}
+	case "cylinder":
+		s, err = sdf.Cylinder3D(p(0, 2), p(1, 0.5), 0)
+	case "lprism": // box minus a quarter of itself: an L-shaped prism, all faces axis-parallel
+		var b sdf.SDF3
+		b, err = sdf.Box3D(v3.Vec{X: p(0, 2), Y: p(1, 1.5), Z: p(2, 1)}, 0)
+		if err == nil {
+			s = sdf.Difference3D(b, sdf.Transform3D(b, sdf.Translate3d(v3.Vec{X: p(0, 2) / 2, Y: p(1, 1.5) / 2})))
+			exact = false
+		}
+	case "twist": // rounded bar twisted about z: Evaluate over-estimates distance when the twist is fast
+		s = sdf.TwistExtrude3D(sdf.Box2D(v2.Vec{X: p(0, 2), Y: p(1, 0.6)}, 0.1), p(2, 2), p(3, 3))
+		exact = false
+	case "scale-extrude": // strongly tapered extrusion
+		s = sdf.ScaleExtrude3D(sdf.Box2D(v2.Vec{X: p(0, 2), Y: p(1, 1.2)}, 0.1), p(2, 2), v2.Vec{X: p(3, 0.3), Y: p(4, 0.4)})
+		exact = false
 	default:
 		return nil, false, fmt.Errorf("unknown shape %q", sp.Name)
 	}
@@ -347,6 +363,13 @@ func buildShape(sp shapeSpec) (sdf.SDF3, bool, error) {
 	return w, exact, nil
 }
 
+// overEstimates: Evaluate has the right sign and zero set but may grow faster than distance
+// (non-uniform / shrinking scale, twist, tapered extrusion): |f(v)| <= cell diagonal is then no consequence
+// of "v within a cell diagonal of the surface"; every other oracle applies unchanged.
+func (sp shapeSpec) overEstimates() bool {
+	return len(sp.Scale) == 3 || sp.Name == "twist" || sp.Name == "scale-extrude"
+}
+
 type renderSpec struct {
 	Shape    shapeSpec `json:"shape"`
 	Renderer string    `json:"renderer"` // "v1" | "v2"
@@ -356,6 +379,8 @@ type renderSpec struct {
 	// v2
 	FarAway    float64 `json:"far_away"`
 	CenterPush float64 `json:"center_push"`
+	// v2 ray cast knobs: scaleAndSigmoid, stepScale, epsilon, maxSteps (default 0, 1, 1e-4, 1000)
+	Raycast []float64 `json:"raycast,omitempty"`
 }
 
 func (rs renderSpec) key() string {
@@ -385,6 +410,9 @@ func renderV1With(r *dc.DualContouringV1, s sdf.SDF3, cells int) []sdf.Triangle3
 }
 
 func newV2(rs renderSpec) *dc.DualContouringV2 {
+	if len(rs.Raycast) == 4 {
+		return dc.NewDualContouringV2(rs.FarAway, rs.CenterPush, rs.Raycast[0], rs.Raycast[1], rs.Raycast[2], int(rs.Raycast[3]), rs.Cells)
+	}
 	return dc.NewDualContouringV2(rs.FarAway, rs.CenterPush, 0, 1, 1e-4, 1000, rs.Cells)
 }
 
@@ -490,6 +518,111 @@ func (l lattice) inCrossingCell(s sdf.SDF3, v v3.Vec, tol float64) bool {
 		}
 	}
 	return false
+}
+
+// referenceDiff evaluates the field at every point of the n-lattice and compares the observed triangles (cell
+// triples) with the dual mesh of that sign grid: for every lattice edge with four surrounding cells and end
+// signs that differ, the quad of those four cells as the fan from the lowest cell, wound from solid to void.
+// Triangles are compared as a multiset up to rotation.  When some lattice value is within 1e-12 of zero the
+// sign seen by the renderer may legitimately depend on the last bit of the coordinates: not compared.
+func referenceDiff(n v3i.Vec, f func(i, j, k int) float64, obs []itri, r *Report, tag string) string {
+	nx, ny, nz := n.X+1, n.Y+1, n.Z+1
+	solid := make([]bool, nx*ny*nz)
+	for i := 0; i < nx; i++ {
+		for j := 0; j < ny; j++ {
+			for k := 0; k < nz; k++ {
+				v := f(i, j, k)
+				if math.Abs(v) < 1e-12 || math.IsNaN(v) {
+					r.Coverage["reference_skipped_"+tag], _ = addOne(r.Coverage["reference_skipped_"+tag])
+					return ""
+				}
+				solid[(i*ny+j)*nz+k] = v < 0
+			}
+		}
+	}
+	r.Coverage["reference_compared_"+tag], _ = addOne(r.Coverage["reference_compared_"+tag])
+	at := func(p v3i.Vec) bool { return solid[(p.X*ny+p.Y)*nz+p.Z] }
+	less := func(a, b v3i.Vec) bool {
+		if a.X != b.X {
+			return a.X < b.X
+		}
+		if a.Y != b.Y {
+			return a.Y < b.Y
+		}
+		return a.Z < b.Z
+	}
+	canon := func(t itri) itri { // rotate the lowest cell to the front
+		m := 0
+		for k := 1; k < 3; k++ {
+			if less(t[k], t[m]) {
+				m = k
+			}
+		}
+		return itri{t[m], t[(m+1)%3], t[(m+2)%3]}
+	}
+	sub := func(p, q v3i.Vec) v3i.Vec { return v3i.Vec{X: p.X - q.X, Y: p.Y - q.Y, Z: p.Z - q.Z} }
+	want := map[itri]int{}
+	unit := [3]v3i.Vec{{X: 1}, {Y: 1}, {Z: 1}}
+	dims := [3]int{n.X, n.Y, n.Z}
+	get := func(p v3i.Vec, a int) int { return [3]int{p.X, p.Y, p.Z}[a] }
+	nq := 0
+	for a := 0; a < 3; a++ {
+		b, c := (a+1)%3, (a+2)%3
+		for i := 0; i <= n.X; i++ {
+			for j := 0; j <= n.Y; j++ {
+				for k := 0; k <= n.Z; k++ {
+					p := v3i.Vec{X: i, Y: j, Z: k}
+					if get(p, a) >= dims[a] || get(p, b) < 1 || get(p, b) >= dims[b] || get(p, c) < 1 || get(p, c) >= dims[c] {
+						continue
+					}
+					s0, s1 := at(p), at(p.Add(unit[a]))
+					if s0 == s1 {
+						continue
+					}
+					nq++
+					q0, q1, q2, q3 := sub(sub(p, unit[b]), unit[c]), sub(p, unit[c]), p, sub(p, unit[b])
+					if s0 {
+						want[canon(itri{q0, q1, q2})]++
+						want[canon(itri{q0, q2, q3})]++
+					} else {
+						want[canon(itri{q0, q3, q2})]++
+						want[canon(itri{q0, q2, q1})]++
+					}
+				}
+			}
+		}
+	}
+	missing, extra, eg := 0, 0, ""
+	for _, t := range obs {
+		ct := canon(t)
+		if want[ct] > 0 {
+			want[ct]--
+		} else {
+			extra++
+			if eg == "" {
+				eg = fmt.Sprintf("unexpected triangle %v", t)
+			}
+		}
+	}
+	for t, c := range want {
+		if c > 0 {
+			missing += c
+			if eg == "" {
+				eg = fmt.Sprintf("missing triangle %v", t)
+			}
+		}
+	}
+	if missing == 0 && extra == 0 {
+		return ""
+	}
+	return fmt.Sprintf("%d reference quads; %d reference triangles missing, %d triangles not in the reference (%s)", nq, missing, extra, eg)
+}
+
+func addOne(v interface{}) (interface{}, bool) {
+	if n, ok := v.(int); ok {
+		return n + 1, true
+	}
+	return 1, true
 }
 
 // cornerConflict: a lattice corner shared by several voxels that own a vertex must have the same
@@ -609,6 +742,14 @@ func checkRender(r *Report, stratum string, rs renderSpec) {
 		if why := cornerConflict(m.Cells, m.Corners); why != "" {
 			r.Violate(key, "V1 "+why, rs)
 		}
+		// cell-exhaustive reference over the whole cubic octree lattice, sampled exactly where the octree samples
+		v1r := dc.NewDualContouringV1(-1, rs.RCond, true)
+		ms := m.MeshSize
+		if why := referenceDiff(v3i.Vec{X: ms, Y: ms, Z: ms}, func(i, j, k int) float64 {
+			return s.Evaluate(dc.VerifV1LatticePoint(v1r, s, rs.Cells, v3i.Vec{X: i, Y: j, Z: k}))
+		}, its, r, "v1"); why != "" {
+			r.Violate(key, "V1 index buffer differs from the cell-exhaustive reference (one quad per sign-changing interior lattice edge): "+why, rs)
+		}
 	case "v2":
 		t1 = renderV2(s, rs)
 		t2 = renderV2(s, rs)
@@ -623,6 +764,9 @@ func checkRender(r *Report, stratum string, rs renderSpec) {
 		}
 		if why := cornerConflict(m.VertexCells, m.Inside); why != "" {
 			r.Violate(key, "V2 "+why, rs)
+		}
+		if why := referenceDiff(m.Cells, func(i, j, k int) float64 { return s.Evaluate(lat.point(i, j, k)) }, its, r, "v2"); why != "" {
+			r.Violate(key, "V2 triangles in cell indices differ from the cell-exhaustive reference (one quad per sign-changing interior lattice edge): "+why, rs)
 		}
 	}
 	r.Case("render/"+stratum, key, len(t1) > 0)
@@ -658,7 +802,7 @@ func checkRender(r *Report, stratum string, rs renderSpec) {
 				r.Violate(key, fmt.Sprintf("vertex %v of triangle %d is outside the sampled box %v", v, ti, bb), rs)
 				return
 			}
-			if d := math.Abs(s.Evaluate(v)); d > diag*(1+1e-9) {
+			if d := math.Abs(s.Evaluate(v)); !rs.Shape.overEstimates() && d > diag*(1+1e-9) {
 				r.Violate(key, fmt.Sprintf("vertex %v of triangle %d: |f| = %g exceeds one cell diagonal %g (exact sdf: %v)", v, ti, d, diag, exact), rs)
 				return
 			}
@@ -862,6 +1006,143 @@ func check(c *Ctx, r *Report) error {
 	if err := csb.Write(c.Out); err != nil {
 		return err
 	}
+	// ---- the V2 vertex solver (leastSquares -> solve3x3 -> determinant) against its float model, bit for bit
+	csl := &Cases{Kind: "ls", Imports: "From Sdfx Require Import Geo.DCSolve.", Type: "DCSolve.case_ls", Fn: "DCSolve.mismatches_ls", PerShard: 300}
+	lsBad := 0
+	lsCase := func(stratum string, A []v3.Vec, b []float64, moderate bool) {
+		g := dc.VerifV2LeastSquares(A, b)
+		id++
+		as, bs := make([]string, len(A)), make([]string, len(b))
+		var key strings.Builder
+		key.WriteString("ls:")
+		for i := range A {
+			as[i] = f3(A[i])
+			bs[i] = CF(b[i])
+			fmt.Fprintf(&key, "%x,%x,%x=%x;", A[i].X, A[i].Y, A[i].Z, b[i])
+		}
+		csl.Add(fmt.Sprintf("(%d%%N, %s, %s, %s)", id, CList(as), CList(bs), f3(g)))
+		r.Case("v2-solver/"+stratum, key.String(), stratum != "generic")
+		// the solver either refuses (X = +Inf: placeVertex then uses the cell centre) or returns a finite point
+		if lsBad < 8 && moderate && (math.IsNaN(g.X) || math.IsNaN(g.Y) || math.IsNaN(g.Z) || math.IsInf(g.Y, 0) || math.IsInf(g.Z, 0) || math.IsInf(g.X, -1)) {
+			r.Violate(key.String(), fmt.Sprintf("vertex solver returned %v for %d planes with unit normals (neither a finite point nor the +Inf refusal)", g, len(A)),
+				map[string]interface{}{"a": A, "b": b})
+			lsBad++ // a few are enough; leave room in the report for the other strata
+		}
+	}
+	unitDir := func() v3.Vec {
+		for {
+			v := v3.Vec{X: rng.Uniform(-1, 1), Y: rng.Uniform(-1, 1), Z: rng.Uniform(-1, 1)}
+			if l := v.Length(); l > 0.1 && l <= 1 {
+				return v.DivScalar(l)
+			}
+		}
+	}
+	axes3 := []v3.Vec{{X: 1}, {Y: 1}, {Z: 1}}
+	nl := TierN(c.Tier, 400, 6000, 1500)
+	if c.Replay != "" {
+		nl = 0
+	}
+	for k := 0; k < nl; k++ {
+		centre := v3.Vec{X: rng.Dyadic(4, 3), Y: rng.Dyadic(4, 3), Z: rng.Dyadic(4, 3)}
+		pt := func() v3.Vec {
+			return centre.Add(v3.Vec{X: rng.Uniform(-0.5, 0.5), Y: rng.Uniform(-0.5, 0.5), Z: rng.Uniform(-0.5, 0.5)})
+		}
+		var A []v3.Vec
+		var b []float64
+		add := func(n v3.Vec) { A = append(A, n); b = append(b, n.Dot(pt())) }
+		push := func(p float64) {
+			for _, ax := range axes3 {
+				n := ax.MulScalar(p)
+				A = append(A, n)
+				b = append(b, n.Dot(centre))
+			}
+		}
+		sgn := func() float64 { return float64(1 - 2*rng.Intn(2)) }
+		stratum, moderate := "", true
+		switch k % 10 {
+		case 0:
+			stratum = "generic"
+			for i := rng.Range(1, 6); i > 0; i-- {
+				add(unitDir())
+			}
+			push([]float64{0.01, 0.1, 1}[rng.Intn(3)])
+		case 1:
+			stratum = "three-planes"
+			for i := 0; i < 3; i++ {
+				add(unitDir())
+			}
+		case 2, 3: // axis-parallel faces and edges: zero rows and columns of AtA
+			stratum = "zero-rows-columns/push=0"
+			ax := rng.Perm(3)
+			for i := rng.Range(1, 6); i > 0; i-- {
+				add(axes3[ax[rng.Intn(1+rng.Intn(2))]].MulScalar(sgn()))
+			}
+			if k%10 == 3 {
+				stratum = "zero-rows-columns/push>0"
+				push([]float64{1e-8, 0.0005, 0.01, 1}[rng.Intn(4)])
+			} else {
+				push(0)
+			}
+		case 4:
+			stratum = "rank-1"
+			n := unitDir()
+			for i := rng.Range(1, 6); i > 0; i-- {
+				add(n.MulScalar(sgn()))
+			}
+			push(0)
+		case 5:
+			stratum = "rank-2"
+			u, w := unitDir(), unitDir()
+			if k%20 == 5 { // normals with one component exactly zero: the edge of a prism
+				u.Z, w.Z = 0, 0
+				u, w = u.Normalize(), w.Normalize()
+			}
+			for i := rng.Range(2, 6); i > 0; i-- {
+				t := rng.Uniform(0, 3)
+				add(u.MulScalar(math.Cos(t)).Add(w.MulScalar(math.Sin(t))).Normalize())
+			}
+			push(0)
+		case 6:
+			stratum = "three-planes-singular"
+			n := unitDir()
+			rows := []v3.Vec{n, unitDir(), {}}
+			if k%20 == 6 {
+				rows[2] = n // duplicate row
+			}
+			for _, i := range rng.Perm(3) {
+				A = append(A, rows[i])
+				b = append(b, rows[i].Dot(pt()))
+			}
+		case 7:
+			stratum, moderate = "huge-scale", false
+			sc := []float64{1e60, 1e120, 1e200}[rng.Intn(3)]
+			for i := rng.Range(3, 6); i > 0; i-- {
+				n := unitDir().MulScalar(sc)
+				A = append(A, n)
+				b = append(b, n.Dot(pt()))
+			}
+		case 8:
+			stratum, moderate = "tiny-scale", false
+			sc := []float64{1e-3, 1e-5, 1e-80, 1e-160}[rng.Intn(4)]
+			for i := rng.Range(3, 6); i > 0; i-- {
+				n := unitDir().MulScalar(sc)
+				A = append(A, n)
+				b = append(b, n.Dot(pt()))
+			}
+		default:
+			stratum = "guard-threshold" // three planes with determinant at, just below and just above 1e-12
+			x := []float64{1e-12, math.Nextafter(1e-12, 0), math.Nextafter(1e-12, 1), -1e-12, 0, 1e-11, 1e-13}[rng.Intn(7)]
+			rows := []v3.Vec{{X: 1}, {Y: 1}, {Z: x}}
+			for _, i := range rng.Perm(3) {
+				A = append(A, rows[i])
+				b = append(b, rows[i].Dot(pt()))
+			}
+		}
+		lsCase(stratum, A, b, moderate)
+	}
+	if err := csl.Write(c.Out); err != nil {
+		return err
+	}
 
 	if c.Replay != "" {
 		// re-run exactly the failing inputs recorded in a replay file of the driver
@@ -889,6 +1170,19 @@ func check(c *Ctx, r *Report) error {
 					v1Grid("replay", sg)
 				} else {
 					v2Grid("replay", sg)
+				}
+			case strings.HasPrefix(fi.Key, "ls:"):
+				var in struct {
+					A []v3.Vec  `json:"a"`
+					B []float64 `json:"b"`
+				}
+				if err := json.Unmarshal(fi.Input, &in); err != nil {
+					return err
+				}
+				g := dc.VerifV2LeastSquares(in.A, in.B)
+				r.Case("v2-solver/replay", fi.Key, true)
+				if math.IsNaN(g.X) || math.IsNaN(g.Y) || math.IsNaN(g.Z) {
+					r.Violate(fi.Key, fmt.Sprintf("vertex solver returned %v", g), in)
 				}
 			case strings.HasPrefix(fi.Key, "state:"):
 				var st stateSpec
@@ -1004,6 +1298,62 @@ func check(c *Ctx, r *Report) error {
 		}
 	}
 
+	// ---- V2 without centre push / with other valid knob settings, on solids with flat axis-parallel faces and edges:
+	// the normal matrix AtA of a cell then has zero rows and columns, the vertex solver must fall back, and the
+	// vertex must still be finite and in its cell (every oracle of checkRender applies)
+	flat := []string{"box", "cylinder", "lprism", "cylinder-hole", "roundbox", "rotbox", "difference"}
+	knobs := [][]float64{nil, {0, 0.5, 1e-5, 2000}, {1, 1, 1e-3, 200}, {0, 1, 1e-4, 50}, {2, 0.7, 1e-6, 500}}
+	nnp := TierN(c.Tier, 12, 150, 40)
+	for k := 0; k < nnp; k++ {
+		sp := shapeSpec{Name: flat[k%len(flat)]}
+		for i := range sp.Margin {
+			sp.Margin[i] = 0.1 + 0.25*float64(rng.Intn(5))/4
+		}
+		if sp.Name == "box" || sp.Name == "lprism" {
+			sp.Params = []float64{1 + rng.Float(), 1 + rng.Float(), 0.7 + rng.Float()}
+		}
+		rs := renderSpec{Shape: sp, Renderer: "v2", Cells: []int{8, 10, 16, 21}[rng.Intn(4)],
+			FarAway: []float64{0.499999, 0.25, 0.5, 0.1}[rng.Intn(4)], Raycast: knobs[rng.Intn(len(knobs))]}
+		st := "v2-nopush/"
+		if k%4 == 3 { // other valid settings, with a push
+			rs.CenterPush = []float64{1e-6, 0.0005, 0.01, 0.3, 5}[rng.Intn(5)]
+			st = "v2-knobs/"
+		}
+		checkRender(r, st+sp.Name, rs)
+	}
+	// ---- fields that are sign-correct but NOT distance bounds (Evaluate grows faster than distance): shrinking
+	// non-uniform scale, fast twist, strong taper.  Closedness, orientation, containment and the cell-exhaustive
+	// reference must not depend on the field being 1-Lipschitz.
+	nnl := TierN(c.Tier, 12, 150, 40)
+	for k := 0; k < nnl; k++ {
+		sp := shapeSpec{Margin: [6]float64{.15, .2, .15, .15, .15, .2}}
+		switch k % 4 {
+		case 0, 1:
+			sp.Name = []string{"origin-sphere", "box", "rotbox", "cylinder"}[rng.Intn(4)]
+			sp.Scale = []float64{0.3 + 0.3*rng.Float(), 0.3 + 0.3*rng.Float(), 0.3 + 0.3*rng.Float()}
+			if k%4 == 1 { // squeeze one axis only
+				sp.Scale[rng.Intn(3)] = 1
+				sp.Scale[rng.Intn(3)] = 1
+			}
+		case 2:
+			sp.Name = "twist"
+			sp.Params = []float64{1.6 + 0.8*rng.Float(), 0.5 + 0.3*rng.Float(), 2, (2.5 + 2*rng.Float()) * float64(1-2*rng.Intn(2))}
+		default:
+			sp.Name = "scale-extrude"
+			sp.Params = []float64{2, 1.2, 1.5 + rng.Float(), 0.2 + 0.3*rng.Float(), 0.25 + 0.3*rng.Float()}
+		}
+		rs := renderSpec{Shape: sp, Cells: []int{12, 16, 20, 27}[rng.Intn(4)]}
+		if k/4%2 == 1 {
+			rs.Renderer = "v1"
+			rs.RCond = []float64{0, 1e-3, 0.1}[rng.Intn(3)]
+		} else {
+			rs.Renderer = "v2"
+			rs.FarAway = []float64{0.499999, 0.25, 0.5}[rng.Intn(3)]
+			rs.CenterPush = []float64{0.01, 0.1, 0}[rng.Intn(3)]
+		}
+		checkRender(r, "non-lipschitz/"+rs.Renderer+"/"+sp.Name, rs)
+	}
+
 	// grid-aligned NON-dyadic boxes: faces on lattice planes of the sampled volume to within rounding, so the field
 	// is ~1e-17 at whole planes of lattice corners and any inconsistency in how a corner is sampled shows
 	alignedBox := func(o [3]float64, h float64, n [3]int, lo, hi [3]int) shapeSpec {
@@ -1066,10 +1416,11 @@ func check(c *Ctx, r *Report) error {
 	}
 	r.Coverage["state_cases_with_raycast_fallback"] = fallbackSeen
 
-	r.Rule = "grid cases: sign assignments on small lattices (V2: 1..7 cells per axis, V1: octree depth 1..3, 4 in the long tiers) in strata empty / single solid point / sparse / half / dense / full interior / checkerboard / union of boxes (all with outside boundary) and boundary-solid (outside the class, correspondence only), realised by a trilinear lattice field and rendered by the real code; the triangle list in cell indices is compared, in order, with the Gallina model evaluated on the same grid; non-trivial = at least one triangle, distinct by (lattice size, sign bits). render cases: sphere, box, rotated box, rounded box, box minus sphere, cylinder minus cylinder, union of spheres, each in an asymmetrically enlarged box, 6..27 (40) cells, V1 (lock on, no simplification, three rcond values) and V2 (FarAway in {0.25,0.4,0.499999,0.5}, CenterPush in {0.01,0.1,1}); non-trivial = produced triangles, distinct by full parameter record. aligned strata: boxes and spheres with faces/poles on lattice planes, dyadic and NON-dyadic steps (0.15, 0.05, 0.07, any two-decimal step), centred and translated, 8/16/32 cells, cubic and 2:1:1 volumes; for these and every render case the index-space mesh from the hooks must be closed and all voxels sharing a lattice corner must agree on its sign. state cases: ONE renderer value renders a non-uniformly scaled shape twice (sdf.Scale3d: the field over-estimates distance, the V2 ray cast fails and the warn-once flags get set; counted in state_cases_with_raycast_fallback) and then a plain shape, compared bit for bit with itself and with a fresh renderer; V1 and V2, all settings."
+	r.Rule = "grid cases: sign assignments on small lattices (V2: 1..7 cells per axis, V1: octree depth 1..3, 4 in the long tiers) in strata empty / single solid point / sparse / half / dense / full interior / checkerboard / union of boxes (all with outside boundary) and boundary-solid (outside the class, correspondence only), realised by a trilinear lattice field and rendered by the real code; the triangle list in cell indices is compared, in order, with the Gallina model evaluated on the same grid; non-trivial = at least one triangle, distinct by (lattice size, sign bits). render cases: sphere, box, rotated box, rounded box, box minus sphere, cylinder minus cylinder, union of spheres, each in an asymmetrically enlarged box, 6..27 (40) cells, V1 (lock on, no simplification, three rcond values) and V2 (FarAway in {0.25,0.4,0.499999,0.5}, CenterPush in {0.01,0.1,1}); non-trivial = produced triangles, distinct by full parameter record. aligned strata: boxes and spheres with faces/poles on lattice planes, dyadic and NON-dyadic steps (0.15, 0.05, 0.07, any two-decimal step), centred and translated, 8/16/32 cells, cubic and 2:1:1 volumes; for these and every render case the index-space mesh from the hooks must be closed and all voxels sharing a lattice corner must agree on its sign. v2-nopush / v2-knobs: V2 with CenterPush = 0 (or 1e-6..5), FarAway 0.1..0.5 and five ray-cast knob settings on boxes, cylinders, L prisms, CSG; non-lipschitz: spheres, boxes, rotated boxes, cylinders scaled by 0.3..0.6 per axis (or one axis only), bars twisted 2.5..4.5 rad over height 2, extrusions tapered to 0.2..0.5, V1 and V2 - the |f(v)| <= diagonal oracle is waived there (f is no distance bound), every other oracle applies. Every render case: all lattice points are evaluated and the index triangles compared as a multiset with one oriented quad per sign-changing interior lattice edge (skipped when a lattice value is within 1e-12 of zero; counted in reference_compared/skipped). v2-solver: 1..9 planes with unit normals (generic, three planes, axis-parallel with zero rows/columns with and without push, rank 1, rank 2, singular three-plane systems, guard threshold diag(1,1,1e-12 +- 1ulp), times 1e60..1e200 and 1e-3..1e-160), result compared bit for bit with the float model and required to be a finite point or the +Inf refusal (moderate scales). state cases: ONE renderer value renders a non-uniformly scaled shape twice (sdf.Scale3d: the field over-estimates distance, the V2 ray cast fails and the warn-once flags get set; counted in state_cases_with_raycast_fallback) and then a plain shape, compared bit for bit with itself and with a fresh renderer; V1 and V2, all settings."
 	r.Trusted = append(r.Trusted,
 		"hand models coq/Algo/DCModel.v of generateTriangles and of contourCellProc/FaceProc/EdgeProc/ProcessEdge over the regenerated tables, tied by differential execution on sign grids (cases_v1_*.v, cases_v2_*.v, exact order)",
 		"float model of dcBoundVertexPosition (coq/Geo/DCVertex.v at Coq primitive floats) compared bit for bit through the hook (cases_bv_*.v); the V2 far-away clamp is inside placeVertex and only observed through the vertex oracle",
+		"float model of the V2 vertex solver determinant/solve3x3/leastSquares (coq/Geo/DCSolve.v) compared bit for bit through the hook (cases_ls_*.v)",
 		"hooks render/dc/verif_hooks_c19.go (V1: repeat the first lines of Render, then the real generateVertexIndices/contourCellProc; V2: real placeVertices/generateTriangles on a vertex buffer holding cell indices)",
 		"QEF / SVD (gonum), ray cast and bisection are oracles: only the containment of their result is checked (direct oracle on every vertex) and proved for the lock/clamp step",
 		"Go oracles of this harness: directed-edge balance after identifying bit-equal vertices, signed volume, |f(v)| <= cell diagonal, vertex in a lattice cell with a sign change")
